@@ -605,6 +605,50 @@ func (e *Env) callPure(n *ast.CallExpr, pf *PureFunc) Term {
 		return ne.callRec(n, pf)
 	}
 	ret := decl.Body.List[len(decl.Body.List)-1].(*ast.ReturnStmt).Results[0]
+	if pf.Opaque {
+		// a named predicate/function with a definitional axiom triggered on its applications:
+		// gives quantified clauses that mention it a usable pattern
+		sig := fsig
+		name := "P." + sanitize(strings.TrimPrefix(pf.PkgPath, modPath+"/")) + "." + pf.Name
+		var sorts []Sort
+		var args []Term
+		k := 0
+		for _, fld := range decl.Type.Params.List {
+			for _, nm := range fld.Names {
+				v := ne.vars[nm.Name].Val
+				sorts = append(sorts, v.Sort)
+				args = append(args, v)
+				if stp, ok := sig.Params().At(k).Type().Underlying().(*types.Slice); ok {
+					f := e.st.elemFam(e.u().sortOf(stp.Elem()))
+					name += "." + e.st.symIn(e.cur, f.Name)
+				}
+				k++
+			}
+		}
+		rs := e.u().sortOf(sig.Results().At(0).Type())
+		if !e.st.sc.declared["fun:"+name] {
+			e.st.sc.declFun(name, sorts, rs)
+			de := *ne
+			de.vars = map[string]BVal{}
+			var binders []string
+			var bvs []Term
+			k = 0
+			for _, fld := range decl.Type.Params.List {
+				for _, nm := range fld.Names {
+					e.st.sc.nfresh++
+					bv := Term{fmt.Sprintf("%s!d%d", nm.Name, e.st.sc.nfresh), sorts[k]}
+					de.vars[nm.Name] = BVal{Val: bv}
+					binders = append(binders, fmt.Sprintf("(%s %s)", bv.S, bv.Sort))
+					bvs = append(bvs, bv)
+					k++
+				}
+			}
+			body := (&de).eval(ret)
+			lhs := app(rs, name, bvs...)
+			e.st.sc.emit("(assert (forall (%s) (! (= %s %s) :pattern (%s))))", strings.Join(binders, " "), lhs.S, body.S, lhs.S)
+		}
+		return app(rs, name, args...)
+	}
 	return ne.eval(ret)
 }
 
